@@ -1650,11 +1650,469 @@ def sg_cross_items(rng, n):
     return out
 
 
+# ============================================================================ the adapter layer (GeffModel/Adapters.lean)
+ADAPTER_EXC = {"KeyError", "IndexError", "ValueError", "AttributeError", "OverflowError", "NoEdgeBetweenNodes"}
+
+
+def _adapter_call(f, sg_edge_unknown=False, has=False):
+    """one adapter call as an outcome {"ok": canonical value} | {"exc": class name}"""
+    try:
+        r = f()
+    except Exception as e:  # noqa: BLE001
+        n = type(e).__name__
+        if sg_edge_unknown and n in ("IndexError", "RuntimeError"):
+            n = "MissingEndpoint"  # spatial-graph: which of the two depends on the end point (library detail)
+        return {"exc": n}
+    if has:
+        return {"ok": bool(r)} if isinstance(r, (bool, np.bool_)) else {"ok": ["not-a-bool", repr(r)]}
+    return {"ok": enc(r)}
+
+
+def adapter_answers(ad, md, probe, backend, node_set):
+    """every function of the GraphAdapter protocol on every probe"""
+    out = {}
+    try:
+        out["node_ids"] = {"ok": [str(int(i)) for i in ad.get_node_ids()]}
+    except Exception as e:  # noqa: BLE001
+        out["node_ids"] = {"exc": type(e).__name__}
+    try:
+        out["edge_ids"] = {"ok": [[str(int(e[0])), str(int(e[1]))] for e in ad.get_edge_ids()]}
+    except Exception as e:  # noqa: BLE001
+        out["edge_ids"] = {"exc": type(e).__name__}
+    ni = [int(i) for i in probe["ni"]]
+    ee = [(int(u), int(v)) for u, v in probe["ee"]]
+    out["hn"] = [[_adapter_call(lambda: ad.has_node_prop(n, i, md), has=True) for i in ni] for n in probe["nn"]]
+    out["gn"] = [[_adapter_call(lambda: ad.get_node_prop(n, i, md)) for i in ni] for n in probe["nn"]]
+    unk = [backend == "sg" and not (e[0] in node_set and e[1] in node_set) for e in ee]
+    out["he"] = [[_adapter_call(lambda: ad.has_edge_prop(n, e, md), has=True) for e in ee] for n in probe["en"]]
+    out["ge"] = [[_adapter_call(lambda: ad.get_edge_prop(n, e, md), u) for e, u in zip(ee, unk)] for n in probe["en"]]
+    return out
+
+
+def impl_adapter(case):
+    """construct one in-memory geff through every backend and put every probe to the backend's adapter"""
+    import geff
+    import geff_spec
+    from geff._graph_libs._api_wrapper import get_backend
+
+    warnings.simplefilter("ignore")
+    M = case["M"]
+    out = {}
+    node_set = {int(i) for i in M["node_ids"]}
+    for b in case["backends"]:
+        name = {"nx": "networkx", "rx": "rustworkx", "sg": "spatial-graph"}[b]
+        try:
+            m = dec_mem(M)
+            g = geff.construct(**m, backend=name)
+        except Exception as e:  # noqa: BLE001
+            out[b] = _exc(e)
+            continue
+        axes = None if case.get("md_axes") is None else [geff_spec.Axis(name=a) for a in case["md_axes"]]
+        md = geff_spec.GeffMetadata(geff_version="1.0.0", directed=M["directed"], axes=axes,
+                                    node_props_metadata={}, edge_props_metadata={})
+        if case.get("md_axes") == []:
+            md.axes = []
+        try:
+            out[b] = {"ok": adapter_answers(get_backend(name).graph_adapter(g), md, case["probe"], b, node_set)}
+        except Exception as e:  # noqa: BLE001
+            out[b] = {"adapter_exc": type(e).__name__}
+    return out
+
+
+def impl_rx_adapter(case):
+    """RxGraphAdapter of a rustworkx graph that was NOT built by construct (index holes, no to_rx_id_map)"""
+    from geff._graph_libs._rustworkx import RxBackend
+
+    g, _ = build_rx(case["G"], {"id_map": False, "trailing_holes": case.get("trailing_holes", 0)})
+    node_set = {int(i) for i, _ in case["G"]["nodes"]}
+    return adapter_answers(RxBackend.graph_adapter(g), None, case["probe"], "rx", node_set)
+
+
+def adapter_probe(rng, node_ids, edge_ids, node_names, edge_names, extra_names=()):
+    ids = [int(i) for i in node_ids]
+    pool = [x for x in (4, 0, 11, 250, 6) if x not in ids]
+    ni = [str(i) for i in ids] + [str(pool[0])] if pool else [str(i) for i in ids]
+    ee = [list(e) for e in edge_ids] + [[e[1], e[0]] for e in edge_ids[:6]]
+    if len(ids) >= 2:
+        for _ in range(3):
+            u, v = rng.choice(ids), rng.choice(ids)
+            ee.append([str(u), str(v)])
+    if pool and ids:
+        ee.append([str(ids[0]), str(pool[0])])
+        ee.append([str(pool[0]), str(ids[-1])])
+    ee = [list(x) for x in dict.fromkeys(tuple(e) for e in ee)]
+    return {"nn": [*sorted(node_names), "zz_absent", *extra_names], "ni": ni,
+            "en": [*sorted(edge_names), "zz_absent"], "ee": ee}
+
+
+def gen_adapter_case(rng, k):
+    mode = ["general", "general", "general", "sg", "invalid"][k % 5]
+    if mode == "sg":
+        M = gen_mem(rng, sg_domain=True)
+        ax = M["axes"] or []
+        md_axes = rng.choice([ax, ax, ax, None, list(reversed(ax)), ax[:-1], ["t0", *ax], [*ax, "lab"], []])
+        if not M["node_ids"]:
+            md_axes = rng.choice([ax, None])
+        return {"stream": "adapter", "M": M, "backends": ["nx", "rx", "sg"], "md_axes": md_axes,
+                "probe": adapter_probe(rng, M["node_ids"], M["edge_ids"], M["node_props"], M["edge_props"], ("position",))}
+    if mode == "invalid":
+        while True:
+            M = gen_mem(rng, valid=False)
+            if M.get("invalid") != "dup-edge":  # parallel rustworkx edges: get_edge_data is library behaviour
+                break
+    else:
+        M = gen_mem(rng)
+    return {"stream": "adapter", "M": M, "backends": ["nx", "rx"], "md_axes": rng.choice([None, ["x"]]),
+            "probe": adapter_probe(rng, M["node_ids"], M["edge_ids"], M["node_props"], M["edge_props"])}
+
+
+def adapter_exhaustive():
+    """every valid graph shape on <= 3 nodes (ids 9, 3, 7 — out of order, with gaps) x <= 2 edges from all ordered pairs
+    (self loops included) x directed/undirected, one bool node property and one int edge property under every missing mask"""
+    ids = ["9", "3", "7"]
+    out = []
+    for n in range(0, 4):
+        pairs = [(a, b) for a in range(n) for b in range(n)]
+        edge_sets = [()] + [(p,) for p in pairs] + [(p, q) for p in pairs for q in pairs if p != q]
+        for directed in (True, False):
+            for k, es in enumerate(edge_sets):
+                if not directed and len({frozenset(e) for e in es}) < len(es):
+                    continue
+                nmask = (k * 5 + n) % (2 ** n)
+                emask = (k * 3 + 1) % (2 ** len(es))
+                M = {"directed": directed, "id_dtype": "uint64", "node_ids": ids[:n],
+                     "edge_ids": [[ids[a], ids[b]] for a, b in es], "axes": None,
+                     "node_props": {"f": {"dtype": "bool", "varlen": False, "elem_shape": [],
+                                          "rows": [[[], [["b", (i + k) % 2 == 0]]] for i in range(n)],
+                                          "missing": [bool(nmask >> i & 1) for i in range(n)] if k % 3 else None}},
+                     "edge_props": {"w": {"dtype": "int64", "varlen": False, "elem_shape": [],
+                                          "rows": [[[], [["i", str(10 + i)]]] for i in range(len(es))],
+                                          "missing": [bool(emask >> i & 1) for i in range(len(es))] if k % 2 else None}}}
+                probe = {"nn": ["f", "zz_absent"], "ni": [*ids[:n], "4"], "en": ["w", "zz_absent"],
+                         "ee": [[ids[a], ids[b]] for a in range(n) for b in range(n)] + ([[ids[0], "4"], ["4", ids[0]]] if n else [["4", "5"]])}
+                out.append({"stream": "adapter", "M": M, "backends": ["nx", "rx"], "md_axes": None, "probe": probe, "exh": True})
+    return out
+
+
+def _spec_adapter(M, b, probe, md_axes):
+    """SPECIFICATION (model-independent) of the answers on elements and properties of the geff: has = the element is not
+    marked missing, get = values[k]; `None` where the specification leaves the answer open"""
+    G = mem_as_graph(M)
+    nattr = {i: a for i, a in G["nodes"]}
+    eattr = {}
+    for (u, v), a in G["edges"]:
+        eattr[(u, v)] = a
+        if not M["directed"]:
+            eattr.setdefault((v, u), a)
+    sg_ok = b != "sg" or (md_axes == M.get("axes"))
+    spec = {"hn": [], "gn": [], "he": [], "ge": []}
+    for n in probe["nn"]:
+        hrow, grow = [], []
+        for i in probe["ni"]:
+            if i in nattr and n in M["node_props"] and sg_ok and not (b == "sg" and n == "position"):
+                hrow.append(n in nattr[i] if b != "sg" else True)
+                grow.append({"ok": nattr[i][n]} if n in nattr[i] else None)
+            else:
+                hrow.append(None)
+                grow.append(None)
+        spec["hn"].append(hrow)
+        spec["gn"].append(grow)
+    for n in probe["en"]:
+        hrow, grow = [], []
+        for e in probe["ee"]:
+            e = tuple(e)
+            if e in eattr and n in M["edge_props"]:
+                hrow.append(n in eattr[e] if b != "sg" else True)
+                grow.append({"ok": eattr[e][n]} if n in eattr[e] else None)
+            else:
+                hrow.append(None)
+                grow.append(None)
+        spec["he"].append(hrow)
+        spec["ge"].append(grow)
+    return spec
+
+
+def _norm_answer(o):
+    if isinstance(o, dict) and "ok" in o and isinstance(o["ok"], list):
+        return {"ok": norm_value(o["ok"])}
+    return o
+
+
+def check_adapter_spec(ck, case, b, ans):
+    """model-free verdict on one backend's adapter answers for a valid geff"""
+    M, probe = case["M"], case["probe"]
+    want_nodes = sorted(M["node_ids"], key=int)
+    if "ok" in ans["node_ids"] and sorted(ans["node_ids"]["ok"], key=int) != want_nodes or "exc" in ans["node_ids"]:
+        ck.fail(f"C03:adapter-{b}-node-ids", f"{b} adapter get_node_ids() does not list the nodes of the geff", case,
+                ans["node_ids"], want_nodes)
+        return False
+    def ekey(e):
+        e = (int(e[0]), int(e[1]))
+        return e if M["directed"] else (min(e), max(e))
+    want_edges = sorted(ekey(e) for e in M["edge_ids"])
+    if "exc" in ans["edge_ids"] or sorted(ekey(e) for e in ans["edge_ids"]["ok"]) != want_edges:
+        ck.fail(f"C03:adapter-{b}-edge-ids", f"{b} adapter get_edge_ids() does not list the edges of the geff", case,
+                ans["edge_ids"], want_edges)
+        return False
+    spec = _spec_adapter(M, b, probe, case.get("md_axes"))
+    for key, what in (("hn", "has_node_prop"), ("gn", "get_node_prop"), ("he", "has_edge_prop"), ("ge", "get_edge_prop")):
+        for r, (srow, arow) in enumerate(zip(spec[key], ans[key])):
+            for c, (sv, av) in enumerate(zip(srow, arow)):
+                if sv is None:
+                    continue
+                exp = {"ok": sv} if key in ("hn", "he") else sv
+                if not _same(_norm_answer(av), _norm_answer(exp)):
+                    name = (probe["nn"] if key in ("hn", "gn") else probe["en"])[r]
+                    el = (probe["ni"] if key in ("hn", "gn") else probe["ee"])[c]
+                    ck.fail(f"C03:adapter-{b}-{what}", f"{b} adapter {what}({name!r}, {el}) = {av}, the geff says {exp}", case, av, exp)
+                    return False
+    return True
+
+
+def _cmp_answers(ck, name, case, impl, model, multiset_ids=False):
+    """implementation answers vs model answers, field by field"""
+    for key in ("node_ids", "edge_ids"):
+        a, b = impl[key], model[key]
+        if multiset_ids and "ok" in a and "ok" in b:
+            a, b = {"ok": sorted(a["ok"])}, {"ok": sorted(b["ok"])}
+        if not _same(a, b):
+            ck.corr_broken(f"{name}.{key}", case, a, b)
+            return False
+    for key in ("hn", "gn", "he", "ge"):
+        a = [[_norm_answer(x) for x in row] for row in impl[key]]
+        b = [[_norm_answer(x) for x in row] for row in model[key]]
+        if not _same(a, b):
+            for r, (ra, rb) in enumerate(zip(a, b)):
+                for c, (xa, xb) in enumerate(zip(ra, rb)):
+                    if not _same(xa, xb):
+                        ck.corr_broken(f"{name}.{key}", {**case, "at": [key, r, c]}, xa, xb)
+                        return False
+    return True
+
+
+def do_adapters(ck, drv, cases, stats):
+    res = common.pmap(impl_adapter, cases, chunksize=8)
+    model = drv.ask([{"op": "adapter", "m": _strip_mem(c["M"]), "axes": c["M"].get("axes"), "md_axes": c.get("md_axes"),
+                      "nn": c["probe"]["nn"], "ni": c["probe"]["ni"], "en": c["probe"]["en"], "ee": c["probe"]["ee"]}
+                     for c in cases]) if drv else None
+    if drv and model is None:
+        ck.broken.append({"what": "driver Drivers/C03.lean (adapter)", "detail": drv.broken})
+    for k, (c, r) in enumerate(zip(cases, res)):
+        M = c["M"]
+        invalid = M.get("invalid")
+        ck.case(c, f"adapter:{'exh' if c.get('exh') else 'sg-domain' if M.get('axes') else 'general'}{':' + invalid if invalid else ''}",
+                nontrivial=bool(M["node_ids"]))
+        for b, o in r.items():
+            if "ok" in o and not invalid:
+                stats[f"adapter_spec_{b}_" + ("ok" if check_adapter_spec(ck, c, b, o["ok"]) else "FAIL")] += 1
+        mo = model[k] if model else None
+        if mo is None:
+            continue
+        if "err" in mo:
+            ck.corr_broken("C03:driver(adapter)", c, None, mo)
+            continue
+        for b, o in r.items():
+            mb = mo.get(b, {})
+            if "unmodelled" in mb:
+                stats[f"adapter_{b}_unmodelled"] += 1
+                continue
+            if "exc" in o or "exc" in mb:
+                if o.get("exc") != mb.get("exc"):
+                    ck.corr_broken(f"C03:{b}Adapter(construct)", c, o, mb)
+                    stats[f"adapter_{b}_disagree"] += 1
+                else:
+                    stats[f"adapter_{b}_construct_exc"] += 1
+                continue
+            if "adapter_exc" in o:
+                ck.corr_broken(f"C03:{b}Adapter", c, o, mb)
+                continue
+            ok = _cmp_answers(ck, f"C03:{b}Adapter", c, o["ok"], mb["ok"], multiset_ids=(b == "sg"))
+            stats[f"adapter_{b}_" + ("agree" if ok else "disagree")] += 1
+            stats["adapter_answers"] += sum(len(row) for key in ("hn", "gn", "he", "ge") for row in o["ok"][key])
+
+
+def gen_rx_adapter_case(rng):
+    it = gen_random_graph(rng, nmax=7, kinds=["bool", "int", "float", "str", "list"], idsets=("pool",))
+    G = it["G"]
+    # rustworkx indices are the ids: keep them small (every unused index below the maximum is a hole)
+    ren = {i: str(k) for k, (i, _) in zip(rng.sample(range(0, 14), len(G["nodes"])), G["nodes"])}
+    G = {"directed": G["directed"], "nodes": [[ren[i], a] for i, a in G["nodes"]],
+         "edges": [[[ren[u], ren[v]], a] for (u, v), a in G["edges"]]}
+    nn = sorted({k for _, a in G["nodes"] for k in a})
+    en = sorted({k for _, a in G["edges"] for k in a})
+    ids = [i for i, _ in G["nodes"]]
+    holes = [str(x) for x in range(0, 16) if str(x) not in ids][:2]
+    probe = {"nn": [*nn, "zz_absent"], "ni": [*ids, *holes, "-1", "40"], "en": [*en, "zz_absent"],
+             "ee": [e for e, _ in G["edges"]] + [[e[1], e[0]] for e, _ in G["edges"][:4]]
+                   + ([[ids[0], holes[0]]] if ids and holes else []) + ([[ids[0], ids[-1]]] if ids else [])}
+    probe["ee"] = [list(x) for x in dict.fromkeys(tuple(e) for e in probe["ee"])]
+    return {"stream": "rxadapter", "G": G, "probe": probe, "trailing_holes": rng.choice([0, 0, 2])}
+
+
+def do_rx_adapters(ck, drv, cases, stats):
+    res = common.pmap(impl_rx_adapter, cases, chunksize=8)
+    model = drv.ask([{"op": "rxAdapter", "g": rx_json(c["G"], {"id_map": False})[0], **c["probe"]} for c in cases]) if drv else None
+    if drv and model is None:
+        ck.broken.append({"what": "driver Drivers/C03.lean (rxAdapter)", "detail": drv.broken})
+    for k, (c, r) in enumerate(zip(cases, res)):
+        ck.case(c, "rxadapter:holes", nontrivial=bool(c["G"]["nodes"]))
+        want = sorted((i for i, _ in c["G"]["nodes"]), key=int)
+        if r["node_ids"].get("ok") is None or sorted(r["node_ids"]["ok"], key=int) != want:
+            ck.fail("C03:adapter-rx-node-ids", "rustworkx adapter (no id map) does not list the indices in use", c, r["node_ids"], want)
+        mo = model[k] if model else None
+        if mo is None:
+            continue
+        if "err" in mo:
+            ck.corr_broken("C03:driver(rxAdapter)", c, None, mo)
+            continue
+        ok = _cmp_answers(ck, "C03:rxAdapter(no id map)", c, r, mo)
+        stats["rxadapter_" + ("agree" if ok else "disagree")] += 1
+
+
+# ============================================================================ the dispatch / forwarding layer, dynamically
+def do_wrappers(ck, stats):
+    """geff.read / geff.construct / geff.write called with a distinct value for EVERY keyword, the core functions replaced
+    by recorders: what they receive (bound to their own signatures) must be what the wrapper was given.  Model-free; the
+    static counterpart is translator T11 + GeffProps/C03Dispatch.lean."""
+    import inspect
+
+    import networkx as nx
+    import rustworkx as rx
+    import zarr
+
+    import geff
+    import geff_spec
+    from geff._graph_libs import _backend_protocol, _networkx, _rustworkx, _spatial_graph
+    from geff.validate.data import ValidationConfig
+
+    warnings.simplefilter("ignore")
+    rec = {}
+
+    def spy(name, orig, ret=None):
+        sig = inspect.signature(orig)
+
+        def f(*a, **k):
+            b = sig.bind(*a, **k)
+            rec[name] = dict(b.arguments)
+            return ret() if callable(ret) else ret
+        return f
+
+    def expect(case, what, got, want):
+        ck.case(case, "wrapper:" + case["call"], nontrivial=True)
+        stats["wrapper_calls"] += 1
+        if got != want:
+            ck.fail("C03:wrapper-forwarding", f"{case['call']}: {what} arrives as {got!r}, the caller passed {want!r}", case, repr(got), repr(want))
+            return False
+        return True
+
+    M = {"directed": True, "id_dtype": "uint64", "node_ids": ["3", "9"], "edge_ids": [["9", "3"]], "axes": ["y", "x"],
+         "node_props": {a: {"dtype": "float64", "varlen": False, "missing": None, "elem_shape": [],
+                            "rows": [[[], [["f", f2h(v)]]] for v in (1.0, 2.0)]} for a in ("y", "x")},
+         "edge_props": {}}
+    saved = (_backend_protocol.read_to_memory, _networkx.write_dicts, _rustworkx.write_dicts, _spatial_graph.write_arrays)
+    try:
+        # ---- read: every keyword, every backend
+        _backend_protocol.read_to_memory = spy("read_to_memory", saved[0], lambda: dec_mem(M))
+        for b in ("networkx", "rustworkx", "spatial-graph"):
+            for variant in ("keywords", "positional"):
+                store, cfg = zarr.storage.MemoryStore(), ValidationConfig(graph=True)
+                vals = {"structure_validation": False, "node_props": ["y", "x"], "edge_props": [], "data_validation": cfg}
+                case = {"stream": "wrapper", "call": f"geff.read[{b},{variant}]"}
+                rec.clear()
+                try:
+                    if variant == "keywords":
+                        g, md = geff.read(store, backend=b, **vals)
+                    else:
+                        g, md = geff.read(store, False, ["y", "x"], [], cfg, backend=b)
+                except Exception as e:  # noqa: BLE001
+                    ck.case(case, "wrapper:" + case["call"], nontrivial=True)
+                    ck.fail("C03:wrapper-forwarding", f"{case['call']} with valid arguments for every keyword raises "
+                            f"{type(e).__name__}: {str(e)[:200]}", case, type(e).__name__, "returns")
+                    continue
+                got = rec.get("read_to_memory", {})
+                ok = expect(case, "store", got.get("source") is store, True)
+                for k2, v in vals.items():
+                    ok = ok and expect(case, k2, got.get(k2), v)
+                expect(case, "graph type", type(g).__module__.split(".")[0], {"networkx": "networkx", "rustworkx": "rustworkx", "spatial-graph": "spatial_graph"}[b])
+            # defaults: nothing but the store
+            rec.clear()
+            case = {"stream": "wrapper", "call": f"geff.read[{b},defaults]"}
+            try:
+                geff.read(zarr.storage.MemoryStore(), backend=b)
+            except Exception as e:  # noqa: BLE001
+                ck.fail("C03:wrapper-forwarding", f"{case['call']} raises {type(e).__name__}: {str(e)[:200]}", case, type(e).__name__, "returns")
+                continue
+            got = rec.get("read_to_memory", {})
+            for k2, v in {"structure_validation": True, "node_props": None, "edge_props": None, "data_validation": None}.items():
+                expect(case, k2 + " (default)", got.get(k2, inspect.signature(saved[0]).parameters[k2].default), v)
+        _backend_protocol.read_to_memory = saved[0]
+        # ---- write: every keyword, the backend chosen from the graph's type
+        _networkx.write_dicts = spy("nx", saved[1])
+        _rustworkx.write_dicts = spy("rx", saved[2])
+        _spatial_graph.write_arrays = spy("sg", saved[3])
+        gs = {}
+        for b in ("networkx", "rustworkx", "spatial-graph"):
+            gs[b] = geff.construct(**dec_mem(M), backend=b)
+        gs["networkx-undirected"] = nx.Graph(gs["networkx"])
+        g2 = rx.PyGraph()
+        g2.add_nodes_from([{"y": 1.0, "x": 2.0}, {"y": 3.0, "x": 4.0}])
+        gs["rustworkx-undirected"] = g2
+        lists = {"axis_names": ["y", "x"], "axis_units": ["micrometer", "nanometer"], "axis_types": ["space", "space"],
+                 "axis_scales": [2.0, 0.5], "scaled_units": ["meter", "millimeter"], "axis_offset": [1.0, -3.0]}
+        for gname, g in gs.items():
+            b = gname.split("-")[0] if gname.count("-") == 1 and not gname.startswith("spatial") else ("spatial-graph" if gname.startswith("spatial") else gname)
+            key = {"networkx": "nx", "rustworkx": "rx", "spatial-graph": "sg"}[b]
+            for fmt, sv in ((3, False), (2, True)):
+                store = zarr.storage.MemoryStore()
+                md = geff_spec.GeffMetadata(geff_version="1.0.0", directed=not gname.endswith("undirected"),
+                                            node_props_metadata={}, edge_props_metadata={}, extra={"tag": gname})
+                case = {"stream": "wrapper", "call": f"geff.write[{gname},zarr_format={fmt},structure_validation={sv}]"}
+                rec.clear()
+                extra = {"node_id_dict": {0: 30, 1: 90}} if b == "rustworkx" else {}
+                try:
+                    geff.write(g, store, md, zarr_format=fmt, structure_validation=sv, **lists, **extra)
+                except Exception as e:  # noqa: BLE001
+                    ck.case(case, "wrapper:" + case["call"], nontrivial=True)
+                    ck.fail("C03:wrapper-forwarding", f"{case['call']} with valid arguments for every keyword raises "
+                            f"{type(e).__name__}: {str(e)[:200]}", case, type(e).__name__, "returns")
+                    continue
+                if set(rec) != {key}:
+                    ck.fail("C03:wrapper-dispatch", f"{case['call']}: reached {sorted(rec)}, expected the {b} writer", case, sorted(rec), [key])
+                    continue
+                got = rec[key]
+                ok = expect(case, "store", got.get("geff_store") is store, True)
+                ok = ok and expect(case, "zarr_format", got.get("zarr_format"), fmt)
+                ok = ok and expect(case, "structure_validation", got.get("structure_validation"), sv)
+                m2 = got.get("metadata")
+                ok = ok and expect(case, "metadata.extra", getattr(m2, "extra", None), {"tag": gname})
+                ok = ok and expect(case, "metadata.directed", getattr(m2, "directed", None), not gname.endswith("undirected"))
+                axes = getattr(m2, "axes", None) or []
+                for field, attr in (("axis_names", "name"), ("axis_units", "unit"), ("axis_types", "type"), ("axis_scales", "scale"),
+                                    ("scaled_units", "scaled_unit"), ("axis_offset", "offset")):
+                    ok = ok and expect(case, field, [getattr(a, attr) for a in axes], lists[field])
+                if b == "rustworkx":
+                    expect(case, "node_id_dict", sorted(int(i) for i, _ in got.get("node_data", [])), [30, 90])
+                if b == "spatial-graph":
+                    expect(case, "node_props_unsquish", got.get("node_props_unsquish"), {"position": ["y", "x"]})
+    finally:
+        (_backend_protocol.read_to_memory, _networkx.write_dicts, _rustworkx.write_dicts, _spatial_graph.write_arrays) = saved
+    # ---- dispatch errors
+    for call, f, want in (("get_backend('igraph')", lambda: geff._graph_libs._api_wrapper.get_backend("igraph"), "ValueError"),
+                          ("geff.write(dict())", lambda: geff.write({}, zarr.storage.MemoryStore()), "TypeError"),
+                          ("geff.read(backend='igraph')", lambda: geff.read(zarr.storage.MemoryStore(), backend="igraph"), "ValueError")):
+        try:
+            f()
+            got = "returned"
+        except Exception as e:  # noqa: BLE001
+            got = type(e).__name__
+        expect({"stream": "wrapper", "call": call}, "outcome", got, want)
+
+
 # ============================================================================ the check
 def run(ck: common.Check):
     import collections
 
-    ck.prove(["GeffProps.C03", "GeffProps.C03Links"])
+    ck.prove(["GeffProps.C03", "GeffProps.C03Links", "GeffProps.C03Adapters", "GeffProps.C03Dispatch", "GeffProps.C10C03Links"])
     ck.rule = ("cases = corpus + pinned defect witnesses + bounded-exhaustive attribute graphs (<=3 nodes, <=3 edges, every "
                "presence subset of one property x kind in {bool,int,int>=2^63,mixed ints,float,str,list,2-d list,ragged,ragged 2-d} "
                "x id sets {small,sparse,around 2^63,all >= 2^63} x directed/undirected) and seeded random graphs up to 30 nodes, each "
@@ -1667,7 +2125,12 @@ def run(ck: common.Check):
                "writer/reader pairs); array-valued attributes as numpy arrays in 7 memory layouts (C, Fortran, transposed view, "
                "strided, negative strides, non-native byte order, read-only) x fixed/ragged 1-3-d x 4 dtypes, compared "
                "logically; in-memory geffs (9 dtypes, scalar/vector/matrix/var-length, missing masks, 5 id "
-               "dtypes) constructed through every backend and its adapter; dict_props_to_arr called directly. non-trivial = at "
+               "dtypes) constructed through every backend and its adapter; every GraphAdapter function (get_node_ids / get_edge_ids in "
+               "reported order, has_/get_ node and edge prop) on every (name, element) probe incl. absent names, non-nodes, "
+               "reversed / absent edges, edges with an unknown end point, with metadata axes = the geff's / None / permuted / "
+               "shortened / extended, over all graph shapes on <=3 nodes x <=2 edges x directedness (enumerated) and seeded random "
+               "valid, spatial-graph-domain and invalid (duplicate id, dangling edge) geffs, plus rustworkx graphs with index holes "
+               "and no id map; dict_props_to_arr called directly. non-trivial = at "
                "least one attribute or edge; distinct = distinct canonical JSON of the case")
     rng = ck.rng
     drv = ck.driver()
@@ -1730,6 +2193,16 @@ def run(ck: common.Check):
     t1 = __import__("time").time()
     do_dicts(ck, drv, cd, stats)
     phase["dicts"] = round(__import__("time").time() - t1, 1)
+    # ---- E: the adapter layer (every GraphAdapter function, every probe) against GeffModel/Adapters.lean
+    nad = 400 if ck.quick else 6000
+    ca = adapter_exhaustive() + [gen_adapter_case(rng, k) for k in range(nad)]
+    t1 = __import__("time").time()
+    do_adapters(ck, drv, ca, stats)
+    do_rx_adapters(ck, drv, [gen_rx_adapter_case(rng) for _ in range(nad // 4)], stats)
+    phase["adapters"] = round(__import__("time").time() - t1, 1)
+    t1 = __import__("time").time()
+    do_wrappers(ck, stats)
+    phase["wrappers"] = round(__import__("time").time() - t1, 1)
     ck.extra["phase_s"] = phase
 
     ck.extra["correspondence"] = dict(sorted(stats.items()))
@@ -1792,6 +2265,17 @@ def replay(rp):
     elif stream == "sg":
         sg_warm()
         do_sg(ck, None, [c], stats)
+    elif stream == "adapter":
+        if "sg" in c["backends"]:
+            sg_warm()
+        print(json.dumps(impl_adapter(c))[:3000])
+        do_adapters(ck, None, [c], stats)
+    elif stream == "rxadapter":
+        print(json.dumps(impl_rx_adapter(c))[:3000])
+        do_rx_adapters(ck, None, [c], stats)
+    elif stream == "wrapper":
+        sg_warm()
+        do_wrappers(ck, stats)
     else:
         do_dicts(ck, None, [c], stats)
     for f in ck.failures:
